@@ -211,13 +211,25 @@ func funcAtoms(fn *ssa.Function) map[string]int {
 					other = x.Succs[1]
 				}
 				rejoin := false
+				// a join that is nothing but the function's exit does not count as rejoining:
+				// "if c { A } else { B }; return" and "if c { A; return }; B; return" are the same shape
+				bareExit := func(j *ssa.BasicBlock) bool {
+					for _, in := range j.Instrs {
+						switch in.(type) {
+						case *ssa.Return, *ssa.RunDefers, *ssa.DebugRef:
+						default:
+							return false
+						}
+					}
+					return true
+				}
 				for j := range reach[other] {
-					if j != b && reach[b][j] {
+					if j != b && reach[b][j] && !bareExit(j) {
 						rejoin = true
 						break
 					}
 				}
-				if other != b && reach[b][other] {
+				if other != b && reach[b][other] && !bareExit(other) {
 					rejoin = true
 				}
 				if !rejoin {
@@ -328,6 +340,9 @@ func funcAtoms(fn *ssa.Function) map[string]int {
 			case *ssa.Return:
 				if level > 0 {
 					break // a looked-through helper's returns are not the caller's
+				}
+				if len(x.Results) == 0 {
+					break // where a function without results returns is not an operation of its own
 				}
 				conds := append([]string{}, condsOf[in.Block()]...)
 				sort.Strings(conds)
